@@ -380,8 +380,28 @@ pub fn conc_configs(prop: &str, thorough: bool) -> Vec<SimConfig> {
         ("C03" | "C19", true) => pick(&["n2-full-preempt-true", "n2-full-preempt-false", "n2-split-handshake-preempt-true", "n2-split-handshake-preempt-false", "n2-two-origins"]),
         ("C04", false) => pick(&["n2-full-preempt-true"]),
         ("C04", true) => pick(&["n2-full-preempt-true", "n2-full-preempt-false", "n2-two-origins"]),
-        ("C05", false) => pick(&["n2-timeout-None"]),
-        ("C05", true) => pick(&["n2-timeout-None", "n2-timeout-Some(0)", "n2-timeout-Some(1)", "n2-lax-is-open"]),
+        ("C05", false) => {
+            let mut v = pick(&["n2-timeout-None"]);
+            // the clock moving while an operation is in progress: one tick, HTTP/1.1 only
+            let mut c = SimConfig::base("n2-h1-one-tick");
+            c.allow_h2 = false;
+            c.idle_timeout = Some(1);
+            c.max_ticks = 1;
+            c.ev_dial_fail = false;
+            c.ev_cancel = false;
+            v.push(c);
+            v
+        }
+        ("C05", true) => {
+            let mut v = pick(&["n2-timeout-None", "n2-timeout-Some(0)", "n2-timeout-Some(1)", "n2-lax-is-open"]);
+            let mut c = SimConfig::base("n2-h1-one-tick");
+            c.allow_h2 = false;
+            c.idle_timeout = Some(1);
+            c.max_ticks = 1;
+            c.ev_dial_fail = false;
+            v.push(c);
+            v
+        }
         ("C06", false) => pick(&["n2-host"]),
         ("C06", true) => pick(&["n2-host", "n2-scheme", "n2-port", "n2-wss-vs-https"]),
         ("C15", false) => pick(&["burst-k2-max1-close"]),
@@ -702,7 +722,7 @@ pub fn run_into(run: &mut Run, prop: &'static str, thorough: bool) -> Option<Str
         if s.capped.is_some() {
             exhaustive = false;
         }
-        conc_cfgs_json.push(json!({"config": cfg.describe(), "states_paired": s.states, "operation_pairs": s.pairs, "interleavings_executed": s.interleavings,
+        conc_cfgs_json.push(json!({"config": cfg.describe(), "states_paired": s.states, "operation_pairs": s.pairs - s.env_pairs, "operation_x_environment_event_pairs": s.env_pairs, "interleavings_executed": s.interleavings,
             "max_decision_points": s.max_decision_points, "max_interleavings_of_one_pair": s.max_interleavings_of_a_pair, "pairs_with_more_than_two_interleavings": s.pairs_with_a_choice,
             "outcomes_equal_to_a_sequential_state": s.outcomes_equal_to_a_sequential_state, "outcomes_no_sequential_order_reaches": s.concurrency_only_states,
             "distinct_states_no_sequential_order_reaches": s.distinct_concurrency_only_states, "continued_to_quiescence": s.drains, "probe_requests": s.probes,
